@@ -62,20 +62,17 @@ theorem victims_released (l : Lfu) (est : Nat → Int) (key : Nat) (cost : Int)
   ⟨(policyAdd_spec l est key cost refills hinv).released,
    (policyAdd_spec l est key cost refills hinv).only_released⟩
 
-/-- **sample size**: what `fill_sample` appends brings the sample to `samples` (= 5) entries, or
-appends every charged key when there are fewer ("five, or all if fewer"); entries are charged keys
-with their current cost. -/
+/-- **sample size**: what `fill_sample` appends brings the sample to `samples` (= 5) entries, or — when
+the residents do not suffice — to at least as many entries as there are charged keys ("five, or all if
+fewer"), never beyond `samples`; entries are charged keys with their current cost. -/
 theorem refill_size (l : Lfu) (n : Nat) (extras : List (Nat × Int))
     (hv : l.validRefill n extras = true) (hn : n < l.samples) :
-    (n + extras.length = l.samples ∨ extras.length = l.costs.length) ∧
+    (n + extras.length = l.samples ∨ l.costs.length ≤ n + extras.length) ∧ n + extras.length ≤ l.samples ∧
     ∀ p ∈ extras, l.costs.get p.1 = some p.2 := by
   unfold Lfu.validRefill at hv
   have hn' : ¬ n ≥ l.samples := by omega
-  simp only [hn', if_false, Bool.and_eq_true, beq_iff_eq, List.all_eq_true] at hv
-  refine ⟨?_, fun p hp => hv.1.2 p hp⟩
-  have := hv.1.1
-  rw [this]
-  omega
+  simp only [hn', if_false, Bool.and_eq_true, Bool.or_eq_true, beq_iff_eq, List.all_eq_true, decide_eq_true_eq] at hv
+  refine ⟨hv.1.1.2, by have := hv.1.1.1; omega, fun p hp => hv.1.2 p hp⟩
 
 /-- whichever of the equally unpopular candidates the tie-break oracle proposes (`tiePick`: the first one, as
 the Rust scan `if hits < min_hits` finds it, the last one, any other), the entry taken is in the sample and
